@@ -55,6 +55,12 @@ def mutated_containers(nodes):
 def fresh_like(E, st, name, cur, spec):
     """havoc value for local `name` whose value before the loop is `cur`"""
     ty = spec.types.get(name)
+    if ty is None and isinstance(cur, Ref):
+        cell = st.cell(cur)
+        if isinstance(cell, ListCell) or (isinstance(cell, ObjCell) and cell.cls == "SymList"):
+            ln = z3.Int(fresh_name(name + "_len"))
+            st.assume(ln >= 0)
+            return st.alloc(ObjCell("SymList", {"__len__": SInt(ln)}))
     if ty is None:
         if isinstance(cur, bool) or isinstance(cur, SBool):
             ty = "bool"
@@ -134,8 +140,10 @@ def havoc_for_cut(E, st, body_nodes, spec, extra_names=()):
             cell = st.cell(v)
             if isinstance(cell, IntSetCell) or (isinstance(cell, DictCell) and not cell.d):
                 st.set_cell(v, IntSetCell(z3.Array(fresh_name(n + "_present"), z3.IntSort(), z3.BoolSort())))
-            elif isinstance(cell, ListCell):
-                st.set_cell(v, ObjCell("OpaqueList", {}))
+            elif isinstance(cell, ListCell) or (isinstance(cell, ObjCell) and cell.cls == "SymList"):
+                ln = z3.Int(fresh_name(n + "_len"))
+                st.assume(ln >= 0)
+                st.set_cell(v, ObjCell("SymList", {"__len__": SInt(ln)}))
             elif isinstance(cell, DictCell):
                 raise Unsupported(f"non-empty dict {n} mutated inside a cut loop")
     for path in spec.havoc:
@@ -144,8 +152,9 @@ def havoc_for_cut(E, st, body_nodes, spec, extra_names=()):
         E.havoc_ghost(st)
 
 
-def heap_snapshot(st):
-    return dict(st.heap), st.ghost.get("emitted")
+def heap_snapshot(st, E=None, spec=None):
+    allowed = allowed_writes(E, st, spec) if E is not None else set()
+    return dict(st.heap), st.ghost.get("emitted"), allowed
 
 
 def allowed_writes(E, st, spec):
@@ -154,6 +163,18 @@ def allowed_writes(E, st, spec):
         path = path.split(":")[0]
         if path in E.havoc_models:
             allowed.add(("model", path))
+            try:
+                from .spec import resolve_path
+                if path.endswith(".*"):
+                    owner, attr = resolve_path(E, st, path[:-2])
+                    tgt = st.cell(owner).attrs.get(attr) if isinstance(owner, Ref) else None
+                    if isinstance(tgt, Ref):
+                        allowed.add((tgt.addr, "*"))
+                elif "." in path:
+                    owner, attr = resolve_path(E, st, path)
+                    allowed.add((owner.addr, attr))
+            except Exception:
+                pass
             continue
         try:
             from .spec import resolve_path
@@ -167,8 +188,8 @@ def allowed_writes(E, st, spec):
 def check_heap_frame(E, st, snap, spec, ordinal, body_nodes):
     """a cut loop may only write what it havocked: every other heap cell must be the very
     same object after one arbitrary iteration"""
-    heap0, em0 = snap
-    allowed = allowed_writes(E, st, spec)
+    heap0, em0, allowed0 = snap
+    allowed = allowed_writes(E, st, spec) | allowed0
     containers = {st.locals[n].addr for n in mutated_containers(body_nodes)
                   if isinstance(st.locals.get(n), Ref)}
     for addr, cell0 in heap0.items():
@@ -177,7 +198,8 @@ def check_heap_frame(E, st, snap, spec, ordinal, body_nodes):
             continue
         if isinstance(cell0, ObjCell) and isinstance(cell1, ObjCell):
             for a in set(cell0.attrs) | set(cell1.attrs):
-                if cell0.attrs.get(a) is not cell1.attrs.get(a) and (addr, a) not in allowed:
+                if cell0.attrs.get(a) is not cell1.attrs.get(a) and (addr, a) not in allowed \
+                        and (addr, "*") not in allowed:
                     raise Unsupported(f"loop #{ordinal} writes .{a} of a {cell0.cls} object that is not in its "
                                       "havoc list")
             continue
@@ -206,7 +228,7 @@ def cut_loop(E, stmt, st, spec, ordinal, kind):
     # 2. arbitrary iteration
     havoc_for_cut(E, st, [stmt], spec)
     assume_inv(E, st, spec)
-    snap = heap_snapshot(st)
+    snap = heap_snapshot(st, E, spec)
     v0 = None
     out = []
     for s1, c in E.ev(stmt.test, st):
@@ -220,8 +242,8 @@ def cut_loop(E, stmt, st, spec, ordinal, kind):
             if spec.variant is not None:
                 v0 = E.spec_value(s2, spec.variant)
             for s3, fl in E.exec_block(stmt.body, s2):
-                check_heap_frame(E, s3, snap, spec, ordinal, [stmt])
                 if fl[0] in ("next", "continue"):
+                    check_heap_frame(E, s3, snap, spec, ordinal, [stmt])
                     check_inv(E, s3, spec, ordinal, "step")
                     if spec.variant is not None:
                         v1 = E.spec_value(s3, spec.variant)
@@ -367,7 +389,7 @@ def cut_for(E, stmt, st, it, spec, ordinal):
     env = {idxname: SInt(idx), idxname + "_n": mk_int(n)}
     st.locals["__" + idxname] = SInt(idx)       # visible to invariants of nested loops
     assume_inv(E, st, spec, env)
-    snap = heap_snapshot(st)
+    snap = heap_snapshot(st, E, spec)
     out = []
     for s2, more in E.split(st, idx < n):
         if not more:
@@ -387,8 +409,8 @@ def cut_for(E, stmt, st, it, spec, ordinal):
                 out.append((s3, fl))
                 continue
             for s4, fl2 in E.exec_block(stmt.body, s3):
-                check_heap_frame(E, s4, snap, spec, ordinal, [stmt])
                 if fl2[0] in ("next", "continue"):
+                    check_heap_frame(E, s4, snap, spec, ordinal, [stmt])
                     env1 = {idxname: mk_int(idx + 1), idxname + "_n": mk_int(n)}
                     check_inv(E, s4, spec, ordinal, "step", env1)
                     E.paths_explored += 1
